@@ -222,6 +222,107 @@ func loadKnown(path string) []KnownFinding {
 	return out
 }
 
+// baseCase is implemented by cases that are built around a CLIBase: after rapid's own shrinking a
+// World-level pass drops day blocks, recipes, entries and layout variants one at a time while the
+// same violation class persists.
+type baseCase interface {
+	Case
+	base() *CLIBase
+	clone() baseCase
+}
+
+func baseCandidates(b CLIBase) []CLIBase {
+	var out []CLIBase
+	cp := func() CLIBase {
+		var c CLIBase
+		raw, _ := json.Marshal(b)
+		json.Unmarshal(raw, &c)
+		return c
+	}
+	for i := range b.Log {
+		c := cp()
+		c.Log = append(c.Log[:i:i], c.Log[i+1:]...)
+		out = append(out, c)
+	}
+	for i := range b.Book {
+		c := cp()
+		c.Book = append(c.Book[:i:i], c.Book[i+1:]...)
+		out = append(out, c)
+	}
+	for i := range b.Log {
+		for j := range b.Log[i].Items {
+			c := cp()
+			c.Log[i].Items = append(c.Log[i].Items[:j:j], c.Log[i].Items[j+1:]...)
+			out = append(out, c)
+		}
+		if len(b.Log[i].Notes) > 0 {
+			c := cp()
+			c.Log[i].Notes = nil
+			out = append(out, c)
+		}
+	}
+	for i := range b.Book {
+		for j := range b.Book[i].Items {
+			c := cp()
+			c.Book[i].Items = append(c.Book[i].Items[:j:j], c.Book[i].Items[j+1:]...)
+			out = append(out, c)
+		}
+	}
+	if b.LogLayout != plainLayout || b.BookLayout != plainLayout {
+		c := cp()
+		c.LogLayout, c.BookLayout = plainLayout, plainLayout
+		out = append(out, c)
+	}
+	if len(b.Inv.Locals) > 0 {
+		c := cp()
+		c.Inv.Locals = c.Inv.Locals[:len(c.Inv.Locals)-1]
+		out = append(out, c)
+	}
+	return out
+}
+
+// minimise is the World-level pass over a violation rapid has already shrunk.
+func (wk *Worker) minimise(decode func(json.RawMessage) (Case, error)) {
+	v := wk.out.Violation
+	if v == nil {
+		return
+	}
+	c, err := decode(v.Case)
+	if err != nil {
+		return
+	}
+	bc, ok := c.(baseCase)
+	if !ok {
+		return
+	}
+	scratch := newObs() // reach statistics of the minimiser's own runs are not evidence
+	budget := 1500
+	for improved := true; improved && budget > 0; {
+		improved = false
+		for _, cand := range baseCandidates(*bc.base()) {
+			if budget--; budget <= 0 {
+				break
+			}
+			try := bc.clone()
+			*try.base() = cand
+			same := false
+			for _, f := range try.Eval(scratch) {
+				if f.Sig == v.Sig {
+					same = true
+					v.Msg = f.Msg
+				}
+			}
+			if same {
+				bc, improved = try, true
+				break
+			}
+		}
+	}
+	if raw, err := json.Marshal(bc); err == nil {
+		v.Case = raw
+	}
+}
+
 // flakyCases: per property, how to turn an unreproducible in-process failure into a history case.
 var flakyCases = map[string]func() Case{"C11": flakyC11}
 
